@@ -1367,21 +1367,29 @@ class Lattice3D:
                 or abs(self.spacing_z_ - other.spacing_z_) < 1e-3
             )
         ):
+            # a position that misses the lattice edge only by floating point
+            # rounding belongs to the edge node
+            tol_x = 1e-9 * self.spacing_x_
+            tol_y = 1e-9 * self.spacing_y_
+            tol_z = 1e-9 * self.spacing_z_
             for i, j, k in np.ndindex(other.grid_.shape):
                 posx, posy, posz = other.get_coordinates(i, j, k)
                 posx = posx + center_x
                 posy = posy + center_y
                 posz = posz + center_z
                 if (
-                    posx < self.x_min_
-                    or posx > self.x_max_
-                    or posy < self.y_min_
-                    or posy > self.y_max_
-                    or posz < self.z_min_
-                    or posz > self.z_max_
+                    posx < self.x_min_ - tol_x
+                    or posx > self.x_max_ + tol_x
+                    or posy < self.y_min_ - tol_y
+                    or posy > self.y_max_ + tol_y
+                    or posz < self.z_min_ - tol_z
+                    or posz > self.z_max_ + tol_z
                 ):
                     continue
                 else:
+                    posx = min(max(posx, self.x_min_), self.x_max_)
+                    posy = min(max(posy, self.y_min_), self.y_max_)
+                    posz = min(max(posz, self.z_min_), self.z_max_)
                     self.set_value_nearest_neighbor(
                         posx,
                         posy,
